@@ -17,6 +17,7 @@ import (
 	"runtime/debug"
 	"sort"
 	"strings"
+	"time"
 
 	"github.com/lianxiangcloud/linkchain/blockchain"
 	"github.com/lianxiangcloud/linkchain/consensus"
@@ -150,6 +151,7 @@ type unitResult struct {
 	Slots      int               `json:"slots"`
 	Err        string            `json:"err,omitempty"`
 	Partial    bool              `json:"partial,omitempty"` // more results of the same unit follow
+	Restart    bool              `json:"restart,omitempty"` // a call never returned: the worker must be replaced
 }
 
 type unit struct {
@@ -196,6 +198,7 @@ type executor struct {
 
 	composed      map[string]bool        // short encodings already cut in every way (per unit)
 	cutAll        int                    // encodings up to this length are cut in EVERY way
+	rawPoisoned   map[string]bool        // raw entry points that did not return in this unit
 	ctx           func() string          // describes the value being processed (for a panic report)
 	fitNote       map[string]interface{} // replay data of a payload-fitted value (see fit)
 	curSize       int                    // size of the input / encoding of the case being executed (the smallest failing one is reported)
@@ -216,6 +219,7 @@ func newExec(reg *registry, roots []root, mark *marker, u *unit) *executor {
 	x := &executor{reg: reg, roots: roots, mark: mark, vidx: map[string]*violationRec{}, skip: map[int]bool{}, seen: map[uint64]struct{}{}}
 	x.unitID = u.ID
 	x.composed = map[string]bool{}
+	x.rawPoisoned = map[string]bool{}
 	x.cutAll = u.CutAll
 	if x.cutAll == 0 {
 		x.cutAll = 8
@@ -555,6 +559,11 @@ func (x *executor) hostile(r *root, ep string, fn decodeFn, class string, in []b
 	if len(x.batch) >= 32 || x.batchBytes >= 96<<10 {
 		x.flushBatch()
 	}
+	if ep == epBytes {
+		// the raw splitter entry points are type independent: they see every hostile input of the DecodeBytes family
+		x.rawChecks(in, class, 0, len(in) <= 600)
+		x.curSize = len(in)
+	}
 	switch {
 	case c.panicked:
 		x.res.Outcomes["panic"]++
@@ -707,6 +716,15 @@ func (x *executor) run(u *unit) (res *unitResult) {
 	switch u.Kind {
 	case "audit":
 		x.audit()
+	case "rawfamily":
+		x.rawFamilyUnit()
+	case "replay-raw":
+		if in, err := hex.DecodeString(u.InputHex); err != nil {
+			x.res.Err = "replay: input is truncated in the replay file: " + err.Error()
+		} else {
+			x.mark.set(1, rawTypeName, "raw splitters", "replay", in)
+			x.rawChecks(in, "replay", 2*time.Second, true)
+		}
 	case "rt":
 		r := &x.roots[u.Root]
 		first := true
